@@ -1016,6 +1016,11 @@ def array_from_args_index(argnum, ans, args):
 
 
 def array_from_args_gradmaker(argnum, ans, args, kwargs):
+    array_args, array_kwargs = args[0], args[1]
+    dtype = array_kwargs.get("dtype", array_args[0] if array_args else None)
+    if dtype is not None and not onp.issubdtype(onp.dtype(dtype), onp.inexact):
+        # a conversion to an integer or boolean type is piecewise constant
+        return lambda g: vspace(args[argnum]).zeros()
     return lambda g: match_complex(args[argnum], g[array_from_args_index(argnum, ans, args)])
 
 
